@@ -62,6 +62,7 @@ def main():
     os.makedirs(os.path.join(OUT, "replay"), exist_ok=True)
     t0 = time.time()
     thorough = args.tier == "thorough"
+    os.environ["VX_REPLAY_DEPTH"] = "5" if thorough else "4"
     rlimit = 60 if thorough else 30
 
     results, canaries, kani_results = [], [], []
